@@ -84,7 +84,7 @@ def gen_axis(rng, nmin=2):
         dts = [start]
         for _ in range(n - 1):
             dts.append(dts[-1] + rng.choice([60, 3600, 7200, 86400, 100000]))
-    k0 = rng.choice([0, 0, n - 1, rng.randrange(n)])
+    k0 = rng.choice([0, n - 1, rng.randrange(n), rng.randrange(n)])
     return dts, k0
 
 
@@ -321,6 +321,20 @@ def stream_io(c, N):
             c.disagree("set/get sequence", case, mo, res)
 
 
+def probe_bounds_mutation(c):
+    """C12-N1: IOMixin.bounds() replaces the NaNs of the stored <var>_Min/_Max series in place"""
+    P = make_io_class()
+    dts = [dtm(3600 * k) for k in range(4)]
+    p = P((dts, dts[1], [((0, "u_Max"), [1.0, 2.0, NAN, 4.0]), ((0, "c"), [0.0] * 4)]))
+    p.pre()
+    before = [float(x) for x in p.get_timeseries("u_Max").values]
+    p.bounds()
+    after = [float(x) for x in p.get_timeseries("u_Max").values]
+    c.known_probe("C12-N1", not eqv(before, after),
+                  "IOMixin.bounds() changes the stored series u_Max in place: %s -> %s (the missing value at "
+                  "t0+3600 is then retrieved/exported as float-max)" % (before, after))
+
+
 # ---------------------------------------------------------------------------------------------
 
 
@@ -343,8 +357,10 @@ def run(c):
     stream_io(c, c.n(250, 3000))
     tmp = tempfile.mkdtemp(prefix="c12_")
     try:
-        MB.stream_backends(c, c.n(8, 60), tmp)
-        MB.stream_simulation(c, c.n(6, 40), tmp)
-        MB.probes(c, tmp)
+        MB.stream_backends(c, c.n(16, 150), tmp)
+        MB.stream_simulation(c, c.n(8, 60), tmp)
+        if not os.environ.get("VERIF_NO_PROBES"):  # development switch only
+            probe_bounds_mutation(c)
+            MB.probes(c, tmp)
     finally:
         shutil.rmtree(tmp, ignore_errors=True)
